@@ -63,6 +63,18 @@ TOL_NORM = 1e-6
 # keeps |x|**p away from the type's underflow / overflow thresholds (2**-126 / 2**-1022)
 DTYPES = {"f64": (torch.float64, TOL_MODEL, TOL_NORM, 900.0),
           "f32": (torch.float32, 2e-5, 1e-4, 100.0)}
+# integer / boolean targets (counts, step-valued delays, masks): Clamping only; python-float bounds and forward's constant
+# promote to the default floating type (float64 during the check), so the binary64 model applies unchanged
+INT_DTYPES = {"i64": torch.int64, "i32": torch.int32, "i16": torch.int16, "i8": torch.int8, "u8": torch.uint8, "b": torch.bool}
+for _k, _v in INT_DTYPES.items():
+    DTYPES[_k] = (_v, TOL_MODEL, TOL_NORM, 900.0)
+# how the module's own forward updates the watched attribute: re-assignment (a new tensor object), an ordinary in-place
+# operation, or an in-place operation through `.data` (legacy manual-update style; invisible to autograd's version counter)
+FWD_STYLES = ("assign", "inplace", "data")
+
+
+class InjectedFault(Exception):
+    """raised by a probe hook body on a designated module call (fault sequences); the caller handles it and carries on"""
 NORM_DECADES = {}
 STATS = {"norm_runs": 0, "norm_fibres_checked_at_1e-6": 0, "norm_fibres_checked_f32_at_0.0001": 0, "zero_fibres": 0, "fibres_with_0<=norm<eps (not covered)": 0,
          "clamp_runs": 0}
@@ -101,13 +113,14 @@ class Leaf(Module):
 class Host(Module):
     """module under test: logs its forward, adds `delta` to the watched attribute"""
 
-    def __init__(self, log, delta, path):
+    def __init__(self, log, delta, path, style="assign"):
         Module.__init__(self)
         self.sub = Leaf()
         self.sub.inner = Leaf()
         self._log = log
         self._delta = delta
         self._path = path
+        self._style = style
 
     def forward(self, x=None):
         self._log.append("F")
@@ -116,19 +129,39 @@ class Host(Module):
             parts = self._path.split(".")
             for a in parts[:-1]:
                 owner = getattr(owner, a)
-            setattr(owner, parts[-1], getattr(owner, parts[-1]) + self._delta)
+            if self._style == "inplace":
+                getattr(owner, parts[-1]).add_(self._delta)
+            elif self._style == "data":
+                getattr(owner, parts[-1]).data.add_(self._delta)
+            else:
+                setattr(owner, parts[-1], getattr(owner, parts[-1]) + self._delta)
         return x
 
 
-def make_state_probe(log):
+def make_state_probe(log, armed=None):
+    armed = set() if armed is None else armed
+
     class Probe(StateHook):
         def __init__(self, idx, pos, *a, **k):
             StateHook.__init__(self, *a, **k)
             self.idx, self.pos = idx, pos
 
         def hook(self, module):
+            if self.idx in armed:               # fault sequence: this run of the body fails (once)
+                armed.discard(self.idx)
+                raise InjectedFault(f"hook {self.idx}")
             log.append(f"{self.idx}:{self.pos}")
     return Probe
+
+
+def _probe_fn(log, armed, idx, pos, nargs):
+    def fn(*args):
+        assert len(args) == nargs
+        if idx in armed:
+            armed.discard(idx)
+            raise InjectedFault(f"hook {idx}")
+        log.append(f"{idx}:{pos}")
+    return fn
 
 
 def pynorm(xs, p):
@@ -144,20 +177,21 @@ class Real:
     def __init__(self):
         self._reset(0.0, [], (0,), None, "plain")
 
-    def _reset(self, delta, vals, shape, path, kind, dtype="f64"):
+    def _reset(self, delta, vals, shape, path, kind, dtype="f64", style="assign"):
         self.log = []
+        self.armed = set()     # probe hooks whose next run raises (fault sequences)
         self.dtname = dtype
         self.dtype = DTYPES[dtype][0]
         self.path = path
         self.shape = shape
         self.kindattr = kind
-        self.mod = Host(self.log, delta, path)
+        self.mod = Host(self.log, delta, path, style)
         self.hooks = {}        # idx -> hook object (the ONLY strong reference the harness keeps)
         self.kinds = {}        # idx -> 'p' | 's'
         self.n = 0
         self.snaps = []        # (idx, before, after) of value-hook runs during the current op
         self.checks = {}       # idx -> post-condition checker
-        self.Probe = make_state_probe(self.log)
+        self.Probe = make_state_probe(self.log, self.armed)
         self.small = 0
         if path is not None:
             t = torch.tensor(vals, dtype=self.dtype).reshape(shape)
@@ -254,7 +288,9 @@ class Real:
             path = tok[4] if len(tok) > 4 and tok[4] != "-" else None
             kind = tok[5] if len(tok) > 5 else "plain"
             dtype = tok[6] if len(tok) > 6 else "f64"
-            self._reset(delta, vals, shape, path, kind, dtype)
+            style = tok[7] if len(tok) > 7 else "assign"
+            assert style in FWD_STYLES, style
+            self._reset(delta, vals, shape, path, kind, dtype, style)
             self.pre_set = set()
             return "ok-begin"
         if op == "set":
@@ -283,13 +319,60 @@ class Real:
                 setattr(fresh, parts[-1], t)
             setattr(holder, parts[-2], fresh)
             return "ok"
+        if op in ("iset", "dset", "nset"):
+            # update the SAME tensor object: ordinary in-place copy, in-place copy through `.data`, or a write through a
+            # NumPy view of its storage; for the specification each of them is just an assignment
+            vals = [h2f(x) for x in tok[1].split(",")]
+            cur = self._attr()
+            t = torch.tensor(vals, dtype=torch.float64).reshape(self.shape)
+            if op == "iset":
+                cur.copy_(t)
+            elif op == "dset":
+                cur.data.copy_(t)
+            else:
+                cur.numpy()[...] = t.numpy()
+            return "ok"
+        if op == "fcall":
+            # fault sequence: switch to the given mode, call the module once while (a) the body of probe hook <i> raises or
+            # (b, `N`) the watched attribute holds no tensor (every value hook that runs, and forward, raise); the caller
+            # handles the exception, reinstates the attribute and carries on.  For the specification: a mode switch.
+            self.mod.train(tb(tok[2]))
+            name = self.path.split(".")[-1] if self.path is not None else None
+            saved = None
+            if tok[1] == "N":
+                if name is not None:
+                    saved = self._attr()
+                    setattr(self._owner(), name, None)
+            else:
+                self.armed.add(int(tok[1]))
+                if name is not None:
+                    saved = self._attr().detach().clone()
+            self.log.clear()
+            raised = None
+            try:
+                self.mod(None)
+            except Exception as e:  # noqa: BLE001
+                raised = e
+            self.armed.clear()
+            self.log.clear()
+            if saved is not None:
+                setattr(self._owner(), name, saved)
+            bad = []
+            for (idx, before, after) in self.snaps:
+                msg = self.checks[idx](before, after)
+                if msg:
+                    bad.append(f"hook{idx}:{msg}")
+            self.snaps.clear()
+            if tok[1] != "N" and raised is not None and not isinstance(raised, InjectedFault):
+                raise raised
+            return ("ok", "ok" + ("" if not bad else " VIOLATED " + ";".join(bad)))
         if op == "mk":
             kind, hp, hq, pp, pq, tr, ev = tok[1], tb(tok[2]), tb(tok[3]), tb(tok[4]), tb(tok[5]), tb(tok[6]), tb(tok[7])
             idx = self.n
             log = self.log
             if kind == "p":
-                pre = (lambda module, args, _i=idx: log.append(f"{_i}:pre")) if hp else None
-                post = (lambda module, args, out, _i=idx: log.append(f"{_i}:post")) if hq else None
+                pre = _probe_fn(log, self.armed, idx, "pre", 2) if hp else None
+                post = _probe_fn(log, self.armed, idx, "post", 3) if hq else None
                 h = Hook(prehook=pre, posthook=post, prehook_kwargs={"prepend": pp},
                          posthook_kwargs={"prepend": pq}, train_update=tr, eval_update=ev)
             else:
@@ -473,8 +556,18 @@ def shrink_case(ctx, case, kind, max_tries=80):
 
 
 def drv_lines(lines):
-    """`swap` (replace the owner object on the attribute path) is an assignment for the model"""
-    return ["set " + l[5:] if l.startswith("swap ") else l for l in lines]
+    """`swap` (replace the owner object on the attribute path) and the same-object updates `iset` / `dset` / `nset` are
+    assignments for the model; `fcall <who> <mode>` (a module call that fails and is handled by the caller) is a mode switch"""
+    out = []
+    for l in lines:
+        t = l.split()
+        if t and t[0] in ("swap", "iset", "dset", "nset"):
+            out.append("set " + t[1])
+        elif t and t[0] == "fcall":
+            out.append("mode " + t[2])
+        else:
+            out.append(l)
+    return out
 
 
 def run_cases(ctx, cases, ex: Exploration, max_findings=8):
